@@ -64,7 +64,7 @@ SIG_TIES = "C03-tied-distances-order-dependent-k"
 
 
 # ----------------------------------------------------------------------------- running
-def run_impl(ctx, exe, lines, timeout=None):
+def run_impl(ctx, exe, lines, timeout=None, args=()):
     """Feed `lines` (one case each) to the C++ driver.  Returns a list aligned with lines:
     a token list (the words after 'R') or {'crash': text}.  A hang costs `timeout` seconds per restart and at
     most MAX_CRASHES_PER_STREAM restarts."""
@@ -75,7 +75,7 @@ def run_impl(ctx, exe, lines, timeout=None):
     guard = 0
     while start < len(lines) and guard < MAX_CRASHES_PER_STREAM:
         guard += 1
-        r = ctx.run(exe, "\n".join(lines[start:]) + "\n", timeout=timeout, env=RUN_ENV)
+        r = ctx.run(exe, "\n".join(lines[start:]) + "\n", timeout=timeout, env=RUN_ENV, args=args)
         cur = None
         for line in r.out.splitlines():
             if line.startswith("C "):
@@ -387,6 +387,36 @@ def p_line(cmd, method, cc, k, dim, pts):
     return head + "%d %d %d %s" % (k, dim, len(pts), " ".join(str(x) for p in pts for x in p[:dim]))
 
 
+def j_line(cmd, j, cc=1):
+    """the driver line of a find_neighbors job.  A job with a "wide" entry {e, table, idx} runs over the index
+    range idx (ids into table, table[idx[i]] == pts[i]) with every distance multiplied by 2^e."""
+    w = j.get("wide")
+    if not w:
+        return p_line(cmd, j["method"], cc, j["k"], j["dim"], j["pts"])
+    head = "W%s %d " % (cmd, j["method"]) + ("%d " % cc if cmd == "F" else "")
+    return head + "%d %d %d %d %d %s %s" % (
+        j["k"], j["dim"], len(j["pts"]), w["e"], len(w["table"]), " ".join(map(str, w["idx"])),
+        " ".join(str(x) for p in w["table"] for x in p[:j["dim"]]))
+
+
+def make_wide(rng, pts, dim, e, index_range):
+    """{e, table, idx}: index_range False -> the identity range over the samples themselves; True -> the samples
+    scattered over a larger table among decoy points that are NOT part of the range (ids not contiguous, not
+    increasing, not starting at 0)."""
+    N = len(pts)
+    if not index_range:
+        return {"e": e, "table": [tuple(p) for p in pts], "idx": list(range(N))}
+    T = N + rng.randint(1, 6)
+    ids = list(range(T))
+    rng.shuffle(ids)
+    idx = ids[:N]
+    lo = min(x for p in pts for x in p)
+    table = [tuple(lo - 1 - rng.randrange(3) for _ in range(dim)) for _ in range(T)]   # decoys sit next to the data
+    for i, p in zip(idx, pts):
+        table[i] = tuple(p)
+    return {"e": e, "table": table, "idx": idx}
+
+
 def m_line(cmd, k, dim, pts):
     return "%s %d %d %d %s" % (cmd, k, dim, len(pts), " ".join(str(x) for p in pts for x in p[:dim]))
 
@@ -454,7 +484,7 @@ def recursion_replay(ctx, exe, mexe, jobs, stats):
     jobs = [j for j in jobs if j["method"] != 1 or tie_free(j["pts"], j["dim"])]
     if not jobs:
         return 0
-    lines = [p_line("X", j["method"], 0, j["k"], j["dim"], j["pts"]) for j in jobs]
+    lines = [j_line("X", j, 0) for j in jobs]
     impl = run_impl(ctx, exe, lines)
     ml, mi = [], []
     parsed = {}
@@ -499,7 +529,7 @@ def spec_points(ctx, exe, mexe, jobs, stats, check_model=True, check_geodesics=T
     applies the specification to its output.  Returns the list of returned list lengths (None if failed)."""
     if not jobs:
         return []
-    lines = [p_line("F", j["method"], 1, j["k"], j["dim"], j["pts"]) for j in jobs]
+    lines = [j_line("F", j, 1) for j in jobs]
     impl = run_impl(ctx, exe, lines)
     rows_of, slines, sidx = [None] * len(jobs), [], []
     for n, (j, ri) in enumerate(zip(jobs, impl)):
@@ -547,7 +577,7 @@ def spec_points(ctx, exe, mexe, jobs, stats, check_model=True, check_geodesics=T
             need_k_graph.append(n)
     # k may be raised only if the implementation's own k-graph lacks strong connectivity
     if need_k_graph:
-        l0 = [p_line("F", jobs[n]["method"], 0, jobs[n]["k"], jobs[n]["dim"], jobs[n]["pts"]) for n in need_k_graph]
+        l0 = [j_line("F", jobs[n], 0) for n in need_k_graph]
         i0 = run_impl(ctx, exe, l0)
         sl, si = [], []
         for n, ri in zip(need_k_graph, i0):
@@ -576,7 +606,7 @@ def spec_points(ctx, exe, mexe, jobs, stats, check_model=True, check_geodesics=T
             stats["model_shipped_differs"] += mo[1] != mo[2]
     # the real geodesic matrix
     if check_geodesics:
-        dl = [p_line("D", j["method"], 0, j["k"], j["dim"], j["pts"]) for j in jobs]
+        dl = [j_line("D", j, 0) for j in jobs]
         for j, ri in zip(jobs, run_impl(ctx, exe, dl)):
             if crashed(ri):
                 continue    # already reported above if find_neighbors itself fails
@@ -594,12 +624,33 @@ def spec_points(ctx, exe, mexe, jobs, stats, check_model=True, check_geodesics=T
     return lens
 
 
-def eval_points(ctx, exe, mexe, bases, rng, stats, nperm=2):
-    """bases: list of {dim, pts, k}: every method, plus permutations of the samples (same decision required)."""
+SCALE_EXPONENTS = (-70, -52, -23, -1, 1, 23, 52, 70)
+
+
+def variant_text(j):
+    """how a job differs from the base of its group, for the messages"""
+    w = j.get("wide")
+    parts = []
+    if j["perm_of_base"] != list(range(len(j["perm_of_base"]))):
+        parts.append("the same samples in the order perm")
+    if w and w["e"] != 0:
+        parts.append("every distance multiplied by 2^%d" % w["e"])
+    if w and w["idx"] != list(range(len(w["table"]))):
+        parts.append("begin..end running over the id vector wide.idx into the point table wide.table instead of "
+                     "0..N-1")
+    return ", ".join(parts) or "the same call again"
+
+
+def eval_points(ctx, exe, mexe, bases, rng, stats, nperm=2, nwide=2):
+    """bases: list of {dim, pts, k}: every method, plus permutations of the samples, plus (nwide) the same samples
+    with the metric scaled by a power of two and / or supplied through a non-identity index range: the same
+    decision and the same neighbour sets are required of all of them (tie-free data: the exact lists are unique
+    and depend only on the order structure of the metric)."""
     jobs, groups = [], []
     for b in bases:
         N = len(b["pts"])
-        perms = [list(range(N))]
+        ident = list(range(N))
+        perms = [ident]
         rev = list(range(N - 1, -1, -1))
         if nperm >= 1:
             perms.append(rev)
@@ -607,12 +658,27 @@ def eval_points(ctx, exe, mexe, bases, rng, stats, nperm=2):
             p = list(range(N))
             rng.shuffle(p)
             perms.append(p)
+        wides = []
+        if nwide >= 1:      # scaled metric, identity range, original order
+            wides.append((rng.choice(SCALE_EXPONENTS), False, ident))
+        if nwide >= 2:      # non-identity index range (half of them also scaled / permuted)
+            p = list(range(N))
+            if rng.random() < 0.5:
+                rng.shuffle(p)
+            wides.append((rng.choice((0, 0) + SCALE_EXPONENTS), True, p))
         for m in b.get("methods", (0, 1, 2)):
             g = []
             for p in perms:
                 g.append(len(jobs))
                 jobs.append({"dim": b["dim"], "pts": [b["pts"][i] for i in p], "k": b["k"], "method": m,
                              "perm_of_base": p})
+            for e, index_range, p in wides:
+                q = [b["pts"][i] for i in p]
+                g.append(len(jobs))
+                jobs.append({"dim": b["dim"], "pts": q, "k": b["k"], "method": m, "perm_of_base": p,
+                             "wide": make_wide(rng, q, b["dim"], e, index_range)})
+                stats["wide_scaled"] += e != 0
+                stats["wide_index_range"] += bool(index_range)
             groups.append(g)
     lens = spec_points(ctx, exe, mexe, jobs, stats)
     rows_of = spec_points.last_rows
@@ -622,11 +688,14 @@ def eval_points(ctx, exe, mexe, bases, rng, stats, nperm=2):
             stats["point_perms"] += 1
             pair = {"kind": "points_pair", "dim": base["dim"], "pts": base["pts"], "k": base["k"],
                     "method": base["method"], "perm": jobs[n]["perm_of_base"]}
+            if jobs[n].get("wide"):
+                pair["wide"] = jobs[n]["wide"]
+            how = variant_text(jobs[n])
             if lens[g[0]] is not None and lens[n] is not None and lens[n] != lens[g[0]]:
                 ctx.violation(pair,
-                              "the number of neighbours depends on the order of the samples: %d for pts, %d for the "
-                              "same samples in the order perm (method %s)"
-                              % (lens[g[0]], lens[n], METHODS[base["method"]]), signature=SIG_F3)
+                              "the number of neighbours chosen by check_connectivity changes although the samples and "
+                              "the order structure of the metric are the same: %d for pts, %d with %s (method %s)"
+                              % (lens[g[0]], lens[n], how, METHODS[base["method"]]), signature=SIG_F3)
             elif rows_of[g[0]] is not None and rows_of[n] is not None:
                 # cc_order_independent: on tie-free data the neighbour SETS are the renamed sets
                 p = jobs[n]["perm_of_base"]
@@ -634,9 +703,9 @@ def eval_points(ctx, exe, mexe, bases, rng, stats, nperm=2):
                 b = [sorted(p[u] for u in rows_of[n][v]) for v in sorted(range(len(p)), key=lambda v: p[v])]
                 stats["edge_set_comparisons"] += 1
                 if a != b:
-                    ctx.violation(pair, "the neighbour lists returned with check_connectivity = true depend on the "
-                                        "order of the samples (tie-free data, method %s): not the same neighbour "
-                                        "sets after renaming" % METHODS[base["method"]])
+                    ctx.violation(pair, "the neighbour lists returned with check_connectivity = true change (tie-free "
+                                        "data, method %s; %s): not the same neighbour sets after renaming"
+                                  % (METHODS[base["method"]], how))
     # across methods the exact k-NN graph of tie-free data is the same, so is the decision
     by_base = {}
     for g in groups:
@@ -728,10 +797,18 @@ def confirm_with_isomap(ctx, case, stats):
 
 def shrink_points(ctx, exe, mexe, case):
     """fewer samples while find_neighbors still returns a graph that is not strongly connected"""
-    def fails(pts):
-        if len(pts) < 2:
+    w = case.get("wide")
+
+    def job_of(items):
+        j = dict(case, pts=[a for a, _ in items])
+        if w:
+            j["wide"] = dict(w, idx=[b for _, b in items])
+        return j
+
+    def fails(items):
+        if len(items) < 2:
             return False
-        ri = run_impl(ctx, exe, [p_line("F", case["method"], 1, case["k"], case["dim"], pts)], timeout=60)[0]
+        ri = run_impl(ctx, exe, [j_line("F", job_of(items), 1)], timeout=60)[0]
         if crashed(ri):
             return False
         rows = parse_F(ri)
@@ -740,10 +817,10 @@ def shrink_points(ctx, exe, mexe, case):
         so = run_model(ctx, mexe, [s_line(rows)])[0]
         return so[1] == "1" and so[2] == "1" and so[3] == "0"
     pts = [tuple(p) for p in case["pts"]]
-    if not fails(pts):
+    items = list(zip(pts, w["idx"] if w else range(len(pts))))
+    if not fails(items):
         return case
-    small = vlib.shrink_list(pts, fails, max_steps=120)
-    return dict(case, pts=small)
+    return job_of(vlib.shrink_list(items, fails, max_steps=120))
 
 
 
@@ -920,6 +997,279 @@ def probe_tied_order(ctx, exe, mexe, stats, rng, quick):
     return eval_order_pairs_with_ties(ctx, exe, mexe, stats, pairs)
 
 
+# ----------------------------------------------------------------------------- stack depth: deep graphs + source scan
+DEEP_SHAPES = {0: "path i -> i+1..i+k", 1: "cycle i -> i+1..i+k (mod N)", 2: "two-way chain i -> i-1, i+1"}
+DEEP_STACK_KIB = 8192
+DEEP_MOD = 2305843009213693951
+
+
+def deep_entry(N, k, shape, i, j):
+    """the generator of driver command P (harness/c03.cpp deep_entry), in Python"""
+    if shape == 1:
+        t = (i + j + 1) % N
+    elif shape == 2:
+        lo = 1 if i == 0 else i - 1
+        hi = i + 1 if i + 1 < N else i - 1
+        t = lo if j == 0 else hi
+    else:
+        t = i + j + 1
+        if t >= N:
+            t = i - (t - N + 1)
+    return min(max(t, 0), N - 1)
+
+
+def deep_rows(N, k, shape, rev):
+    if not rev:
+        return [[deep_entry(N, k, shape, v, j) for j in range(k)] for v in range(N)]
+    return [[N - 1 - deep_entry(N, k, shape, N - 1 - v, j) for j in range(k)] for v in range(N)]
+
+
+def deep_checksum(rows):
+    s = 0
+    for v, r in enumerate(rows):
+        a = (v % 1000003) * 31 + 7
+        for j, e in enumerate(r):
+            s += (a + j * 17) * (e + 1)
+    return s % DEEP_MOD
+
+
+def deep_expected(N, k, shape):
+    """strong connectivity of the generated graph in closed form, for N >= k + 3 (validated against the extracted
+    strong_b on every run for the small N of deep_small_cases): the path has no edge into sample 0; the cycle and
+    the two-way chain (k >= 2) are strongly connected"""
+    if shape == 0:
+        return "0"
+    if shape == 1:
+        return "1"
+    return "1" if k >= 2 else "0"
+
+
+def deep_line(c):
+    return "P %d %d %d %d" % (c["N"], c["k"], c["shape"], c["rev"])
+
+
+def deep_small_cases():
+    out = []
+    for k in (1, 2, 3):
+        for shape in (0, 1, 2):
+            for N in list(range(k + 3, 13)) + [17, 33, 64]:
+                for rev in (0, 1):
+                    out.append({"kind": "deep", "N": N, "k": k, "shape": shape, "rev": rev,
+                                "stack_kib": DEEP_STACK_KIB})
+    return out
+
+
+def deep_eval(ctx, exe, mexe, cases, stats, ladder=True):
+    """is_connected on generated graphs in a process whose stack limit is set explicitly to 8 MiB.
+    small N: the generator here == the generator of the driver (checksum), closed form == extracted strong_b on the
+    same lists, decision == strong_b.  large N: decision == closed form; an abort / hang is a violation with the
+    four integers as the replay (the search must not need call-stack depth: theorem dfs_stack_bounded says the
+    explicit stack is all it needs)."""
+    if not cases:
+        return 0
+    args = ("--stack-kib", str(DEEP_STACK_KIB))
+    res = run_impl(ctx, exe, [deep_line(c) for c in cases], timeout=240, args=args)
+    small = [(c, deep_rows(c["N"], c["k"], c["shape"], c["rev"])) for c in cases if c["N"] <= 2000]
+    spec = {}
+    if small:
+        mo = run_model(ctx, mexe, [g_line(c["N"], c["k"], rows) for c, rows in small])
+        for (c, rows), o in zip(small, mo):
+            if len(o) != 7 or o[0] != "G" or o[3] != "1":
+                raise vlib.BuildError("model driver: unexpected answer on a generated graph %r" % (o,))
+            spec[deep_line(c)] = o[5]
+            if c["N"] >= c["k"] + 3 and o[5] != deep_expected(c["N"], c["k"], c["shape"]):
+                raise vlib.BuildError("closed form for generated graph %s disagrees with extracted strong_b"
+                                      % deep_line(c))
+            stats["deep_small"] += 1
+    crashed_cases = []
+    for c, ri in zip(cases, res):
+        if skipped(ri):
+            continue
+        stats["deep_runs"] += 1
+        what = "%d samples, %s, k = %d%s" % (c["N"], DEEP_SHAPES[c["shape"]], c["k"],
+                                             ", samples numbered backwards" if c["rev"] else "")
+        if crashed(ri):
+            stats["deep_crashes"] += 1
+            crashed_cases.append((c, ri))
+            continue
+        if len(ri) != 3 or ri[0] != "P" or ri[1] not in ("0", "1"):
+            ctx.violation(c, "is_connected gave no decision on a well-formed graph (%s): %r" % (what, ri))
+            continue
+        want = spec.get(deep_line(c), deep_expected(c["N"], c["k"], c["shape"]))
+        if c["N"] <= 200000:
+            if ri[2] != str(deep_checksum(deep_rows(c["N"], c["k"], c["shape"], c["rev"]))):
+                raise vlib.BuildError("graph generator of harness/c03.cpp and of checks/c03.py differ on " + deep_line(c))
+        if ri[1] != want:
+            ctx.violation(c, "is_connected %s a graph that is %sstrongly connected (%s)"
+                          % ("accepts" if ri[1] == "1" else "rejects", "" if want == "1" else "NOT ", what))
+    # an abort: look for a smaller N of the same shape that aborts too (smaller replay), report the smallest
+    for c, ri in crashed_cases[:2]:
+        best, btxt = c, str(ri["crash"])
+        if ladder and c["N"] > 3000:
+            lad = [dict(c, N=n) for n in (1000, 3000, 10000, 30000, 100000, 300000) if n < c["N"]]
+            lres = run_impl(ctx, exe, [deep_line(x) for x in lad], timeout=240, args=args)
+            stats["deep_runs"] += len(lad)
+            for x, r in zip(lad, lres):
+                if crashed(r) and not skipped(r):
+                    best, btxt = x, str(r["crash"])
+                    break
+        ctx.violation(best, "is_connected aborts / hangs on a well-formed graph (%d samples, %s, k = %d%s; stack limit "
+                      "%d KiB set explicitly; first seen with %d samples): %s.  The search of connected.hpp must not "
+                      "need call-stack depth that grows with the number of samples (model: explicit stack of at most "
+                      "N*k+1 entries, theorem dfs_stack_bounded)"
+                      % (best["N"], DEEP_SHAPES[best["shape"]], best["k"],
+                         ", samples numbered backwards" if best["rev"] else "", DEEP_STACK_KIB, c["N"], btxt[:400]))
+    for c, ri in crashed_cases[2:]:
+        ctx.note("also aborts: " + deep_line(c))
+    return len(cases)
+
+
+def deep_cases(quick, wide_search=False):
+    cs = []
+    big = 1000000
+    for k, shape, rev in ((1, 0, 0), (1, 1, 0), (1, 1, 1), (2, 2, 0), (2, 2, 1), (2, 1, 0)):
+        cs.append({"kind": "deep", "N": big, "k": k, "shape": shape, "rev": rev, "stack_kib": DEEP_STACK_KIB})
+    if wide_search or not quick:
+        for n in (2000, 10000, 50000, 200000, 4000000):
+            for k, shape, rev in ((1, 1, 0), (2, 2, 1), (3, 0, 0), (2, 1, 1)):
+                cs.append({"kind": "deep", "N": n, "k": k, "shape": shape, "rev": rev, "stack_kib": DEEP_STACK_KIB})
+    return cs
+
+
+def strip_cpp(text):
+    """comments, string / char literals and preprocessor lines blanked out (same length, newlines kept)"""
+    out, i, n = [], 0, len(text)
+    while i < n:
+        c = text[i]
+        if text.startswith("//", i):
+            j = text.find("\n", i)
+            j = n if j < 0 else j
+            out.append(" " * (j - i))
+            i = j
+        elif text.startswith("/*", i):
+            j = text.find("*/", i + 2)
+            j = n if j < 0 else j + 2
+            out.append("".join(ch if ch == "\n" else " " for ch in text[i:j]))
+            i = j
+        elif c in "\"'":
+            j = i + 1
+            while j < n and text[j] != c:
+                j += 2 if text[j] == "\\" else 1
+            out.append(c + " " * (j - i - 1) + c)
+            i = j + 1
+        else:
+            out.append(c)
+            i += 1
+    t = "".join(out)
+    return "\n".join(" " * len(l) if l.lstrip().startswith("#") else l for l in t.split("\n"))
+
+
+CPP_KEYWORDS = {"if", "for", "while", "switch", "catch", "return", "sizeof", "decltype", "alignof", "static_assert",
+                "noexcept", "throw", "new", "delete", "typeid", "requires"}
+
+
+def match_brace(t, i):
+    depth = 0
+    for j in range(i, len(t)):
+        if t[j] == "{":
+            depth += 1
+        elif t[j] == "}":
+            depth -= 1
+            if depth == 0:
+                return j
+    return len(t) - 1
+
+
+def cpp_functions(t):
+    """[(name, body text)] of the function definitions of a stripped C++ text (namespace / class / struct / enum
+    bodies are entered, function bodies are not: lambdas and local classes belong to the enclosing function)"""
+    import re
+    funs, i, n = [], 0, len(t)
+    while i < n:
+        if t[i] != "{":
+            i += 1
+            continue
+        head = t[max(0, i - 600):i]
+        m = re.search(r"\)\s*(?:const\b|noexcept\b|override\b|final\b|mutable\b|->\s*[\w:<>,&*\s]+?|\s)*$", head)
+        name = None
+        if m:
+            # walk back over the balanced parameter list
+            j, depth = max(0, i - 600) + m.start(), 0
+            while j >= 0:
+                if t[j] == ")":
+                    depth += 1
+                elif t[j] == "(":
+                    depth -= 1
+                    if depth == 0:
+                        break
+                j -= 1
+            mm = re.search(r"([A-Za-z_~][\w:~]*|operator\s*\S+?)\s*$", t[max(0, j - 200):j]) if j > 0 else None
+            if mm and mm.group(1).split("::")[-1] not in CPP_KEYWORDS:
+                name = mm.group(1).split("::")[-1]
+        if name is not None:
+            e = match_brace(t, i)
+            funs.append((name, t[i:e + 1]))
+            i = e + 1
+        else:
+            i += 1          # namespace / class / initializer: look inside
+    return funs
+
+
+def scan_recursion(text):
+    """names of functions of the text that can (transitively) call themselves; recursive lambdas
+    (name = [..](..){ .. name(..) .. }, or a parameter called through itself: self(self, ..)) are listed too"""
+    import re
+    t = strip_cpp(text)
+    funs = cpp_functions(t)
+    names = sorted({nm for nm, _ in funs})
+    calls = {nm: set() for nm in names}
+    for nm, body in funs:
+        for other in names:
+            if re.search(r"(?<![\w.>])%s\s*(?:<[^;{}()]*>)?\s*\(" % re.escape(other), body):
+                calls[nm].add(other)
+    rec = []
+    for nm in names:
+        seen, todo = set(), list(calls[nm])
+        while todo:
+            x = todo.pop()
+            if x == nm:
+                rec.append(nm)
+                break
+            if x not in seen:
+                seen.add(x)
+                todo.extend(calls[x])
+    for m in re.finditer(r"\b(\w+)\s*=\s*\[[^\]]*\]\s*(?:\([^)]*\))?[^{;]*\{", t):
+        e = match_brace(t, m.end() - 1)
+        if re.search(r"(?<![\w.>])%s\s*\(" % re.escape(m.group(1)), t[m.end():e]):
+            rec.append("lambda " + m.group(1))
+    for m in re.finditer(r"\b(\w+)\s*\(\s*\1\s*[,)]", t):
+        rec.append("lambda parameter " + m.group(1) + " called with itself")
+    return rec, names
+
+
+def scan_connected_hpp(ctx, stats):
+    """no function of connected.hpp may call itself: the searches must be iterative (explicit stack)"""
+    path = os.path.join(ctx.repo, "include", "tapkee", "neighbors", "connected.hpp")
+    try:
+        text = open(path, errors="replace").read()
+    except OSError as ex:
+        ctx.unshown("include/tapkee/neighbors/connected.hpp cannot be read: %s" % ex)
+        return False
+    rec, names = scan_recursion(text)
+    stats["scan_functions"] = names
+    if "is_connected" not in names:
+        ctx.unshown("source scan: connected.hpp no longer defines is_connected (functions found: %s); the model "
+                    "Conn_Model.is_connected_fixed is tied to that function" % names)
+        return False
+    if rec:
+        ctx.unshown("source scan: connected.hpp is no longer iterative: %s can call itself, so the call stack may "
+                    "grow with the search depth (up to the number of samples); the stack-depth obligation "
+                    "(dfs_stack_bounded: an explicit heap-allocated stack of at most N*k+1 entries is all the search "
+                    "needs) is not shown for this source" % ", ".join(rec))
+        return False
+    return True
+
+
 def build_or_error(ctx, src, kw):
     try:
         return ctx.cpp(src, **kw), None
@@ -935,7 +1285,8 @@ def new_stats():
                            "raised", "spec_fail_points", "point_perms", "model_shipped_differs",
                            "geodesic_matrices", "graphs_ragged", "api_runs", "api_k_graph_not_strong",
                            "api_violations", "api_other_failures", "tied_pairs", "tied_order_dependent", "recursion_replays", "edge_set_comparisons",
-                           "method_set_comparisons")}
+                           "method_set_comparisons", "wide_scaled", "wide_index_range", "deep_runs", "deep_small",
+                           "deep_crashes")}
 
 
 def corpus_api_cases(ctx):
@@ -965,7 +1316,7 @@ def run(ctx):
     rng = ctx.rng
     quick = ctx.quick
     stats = new_stats()
-    hist = {"corpus": 0, "graph_exhaustive": 0, "graph_random": {}, "points": {}, "malformed": 0, "api": 0}
+    hist = {"corpus": 0, "graph_exhaustive": 0, "graph_random": {}, "points": {}, "malformed": 0, "api": 0, "deep": 0}
     n = 0
     # the two C++ translation units compile in parallel with the Coq build
     with concurrent.futures.ThreadPoolExecutor(max_workers=2) as pool:
@@ -975,6 +1326,7 @@ def run(ctx):
         mexe = ctx.extract()
         exe, err_int = f_int.result()
         api, err_api = f_api.result()
+    scan_ok = scan_connected_hpp(ctx, stats)
     if err_api:
         ctx.unshown("the public-API driver harness/c03_api.cpp no longer builds against the current tree: "
                     + err_api[-800:])
@@ -1008,6 +1360,11 @@ def run(ctx):
         n += len(nt)
 
     ctx.note("t=%.0fs after build+corpus" % ctx.elapsed())
+    # ---- stack depth: generated path / cycle / chain graphs, 10^6 samples, explicit 8 MiB stack limit
+    dc = [dict(c, stack_kib=DEEP_STACK_KIB) for _, c in ctx.corpus() if c.get("kind") == "deep"]
+    n += deep_eval(ctx, exe, mexe, dc + deep_small_cases() + deep_cases(quick, wide_search=not scan_ok), stats)
+    hist["deep"] = stats["deep_runs"]
+    ctx.note("t=%.0fs after deep graphs" % ctx.elapsed())
     # ---- is_connected on explicit graphs: exhaustive small, then random / structured
     small = []
     all_lists = [(1, 1), (1, 2), (2, 1), (2, 2), (2, 3), (3, 1), (3, 2), (4, 1)] + ([] if quick else [(3, 3), (4, 2), (5, 1)])
@@ -1163,23 +1520,40 @@ def replay(ctx, case):
                 ctx.violation(case, "decision depends on the order of the samples")
     elif kind in ("points", "points_pair"):
         pts = [tuple(p) for p in case["pts"]]
-        variants = [pts]
-        if case.get("perm"):
-            variants.append([pts[i] for i in case["perm"]])
-        lens = []
-        for v in variants:
+        wide = case.get("wide")
+        if wide:
+            wide = dict(wide, table=[tuple(p) for p in wide["table"]])
+        variants = [(pts, wide if kind == "points" else None)]
+        if kind == "points_pair" and (case.get("perm") or wide):
+            perm = case.get("perm") or list(range(len(pts)))
+            variants.append(([pts[i] for i in perm], wide))
+        lens, sets = [], []
+        for v, w in variants:
             j = {"dim": case["dim"], "pts": v, "k": case["k"], "method": case.get("method", 0)}
+            if w:
+                j["wide"] = w
             l = spec_points(ctx, exe, mexe, [j], stats, check_model=tie_free(v, case["dim"]))
             lens.append(l[0])
+            sets.append(spec_points.last_rows[0])
             recursion_replay(ctx, exe, mexe, [j], stats)
-            d = run_impl(ctx, exe, [p_line("D", j["method"], 0, j["k"], j["dim"], v)])[0]
-            print("pts=%s k=%d method=%s -> neighbours %s ; geodesic matrix: %s" % (
-                v, case["k"], METHODS[j["method"]], l[0], d if crashed(d) else " ".join(d)))
+            d = run_impl(ctx, exe, [j_line("D", j, 0)])[0]
+            print("pts=%s k=%d method=%s%s -> neighbours %s ; geodesic matrix: %s" % (
+                v, case["k"], METHODS[j["method"]], (" wide=%s" % json.dumps(w)) if w else "", l[0],
+                d if crashed(d) else " ".join(d)))
         if len(lens) == 2 and None not in lens and lens[0] != lens[1]:
-            ctx.violation(case, "number of neighbours depends on the order of the samples: %r" % (lens,))
+            ctx.violation(case, "the number of neighbours differs between the two variants of the same samples: %r"
+                          % (lens,))
+        elif len(lens) == 2 and None not in sets and tie_free(pts, case["dim"]):
+            perm = case.get("perm") or list(range(len(pts)))
+            a = [sorted(r) for r in sets[0]]
+            b = [sorted(perm[u] for u in sets[1][v]) for v in sorted(range(len(perm)), key=lambda v: perm[v])]
+            if a != b:
+                ctx.violation(case, "the neighbour sets differ between the two variants of the same tie-free samples")
         t = confirm_with_isomap(ctx, dict(case, pts=pts), stats)
         if t:
             print(t)
+    elif kind == "deep":
+        deep_eval(ctx, exe, mexe, [case], stats, ladder=False)
     elif kind == "api":
         api = ctx.cpp("harness/c03_api.cpp", **API_BUILD)
         j = dict(case, pts=[tuple(p) for p in case["pts"]])
